@@ -89,10 +89,11 @@ TABLE["C12"] = {
     "level_note": "Trusted as for C02; the failing-install path (allocator) is C11's.",
 }
 TABLE["C17"] = {
-    "pipelines": [HIST_PIPE, {"name": "panics", "cmd": ["panics"], "n_quick": 400, "n_thorough": 20000, "timeout": 900, "timeout_thorough": 3400, "own_keys_only": ["c17."]}],
+    "pipelines": [HIST_PIPE, {"name": "panics", "cmd": ["panics"], "n_quick": 400, "n_thorough": 20000, "timeout": 900, "timeout_thorough": 3400, "own_keys_only": ["c17."]},
+                  {"name": "enc-arm", "cmd": ["enc-arm"], "n_quick": 2000, "n_thorough": 100000, "timeout_thorough": 3000, "own_keys_only": ["c17."], "filter_prefix": ["macflush"]}],
     "fail_keys": ["c17."],
     "trusted_base": MACHINE_TB,
-    "rule": HIST_RULE + "; C17 predicate on the implementation: each installed trampoline and entry range is covered by a __clear_cache call whose snapshot equals the final bytes; for every restored byte the last covering flush already holds the final value; plus (borrowed panic scripts, key c17.) installations attempted under a W^X policy (mprotect refuses W+X with EACCES, allows RW and RX): whatever bytes of the entry changed must be covered by a later flush request",
+    "rule": HIST_RULE + "; C17 predicate on the implementation: each installed trampoline and entry range is covered by a __clear_cache call whose snapshot equals the final bytes; for every restored byte the last covering flush already holds the final value; plus (borrowed panic scripts, key c17.) installations attempted under a W^X policy (mprotect refuses W+X with EACCES, allows RW and RX): whatever bytes of the entry changed must be covered by a later flush request; plus the macOS memory path judged on the source as translated (GenMac: inject_asm_code, patch_function, PatchGuard::drop run by the driver on address triples): trampoline, entry and restoration each covered by a sys_icache_invalidate requested after the write",
     "assumptions": ["__clear_cache interposition sees every call the library makes (Linux path)"],
     "level_text": "Theorem C17_covers: for every install history and either drop order the event log is flush-clean (at each return to the user no written byte is unflushed); per-operation versions for a single install and a single restore. Correspondence: the interposed __clear_cache records range and content at call time; the model must also predict the exact sequence of flush calls.",
     "level_note": "x86-64 has coherent instruction caches, so only the call discipline is observable here; macOS path (sys_icache_invalidate in patch_function only) is not modelled.",
@@ -221,7 +222,7 @@ TABLE["C13"] = {
 # whose theorems are proof obligations of a property
 TIES = {
     "C01": ["X86", "Install", "InstallGeneral"], "C13": ["X86", "A64Emit"], "C10": ["X86", "Install", "SigText", "Interface"], "C11": ["Alloc", "A64Install", "InstallGeneral"], "C12": ["Alloc", "Install", "Corollaries"],
-    "C02": ["Install", "Interface"], "C03": ["Install", "Corollaries"], "C17": ["Install", "Corollaries"], "C15": ["A64", "A64Emit", "A64Install", "A64Long"], "C16": ["A32", "Corollaries"],
+    "C02": ["Install", "Interface"], "C03": ["Install", "Corollaries"], "C17": ["Install", "Corollaries", "MacFlush"], "C15": ["A64", "A64Emit", "A64Install", "A64Long"], "C16": ["A32", "Corollaries"],
     "C04": ["Interface"], "C05": ["Interface"], "C06": ["Interface"], "C07": ["Interface"], "C09": ["Interface"], "C14": ["Interface"],
 }
 
@@ -239,6 +240,7 @@ FALLBACK_RELEVANCE = [
     ("Layout.counterResetOnInstall", ["C07", "C06"]),
     ("Layout.", ["C02", "C04", "C05", "C09", "C10", "C14", "C12", "C17"]),
     ("Fns.GenX86.allocate", ["C11"]), ("Fns.GenX86.generate_branch", ["C01", "C13"]), ("Fns.GenX86.generate_will_return", ["C10"]),
+    ("Fns.GenMac", ["C17"]),
     ("Fns.GenIf", ["C02", "C04", "C05", "C06", "C07", "C09", "C10", "C14"]),
     ("Fns.GenX86", MACHINE_PROPS), ("Fns.GenA64", ["C15", "C13", "C11"]), ("Fns.GenA32", ["C16", "C13"]),
 ]
